@@ -242,6 +242,7 @@ func (m *ParseModel) Call(mc *Machine, st *State, call ssa.CallInstruction, call
 		if canT {
 			e := m.ev(in, "consume", []string{n}, "ok")
 			name := "tok" + valName
+			e.KV["res"] = name
 			outs = append(outs, Outcome{Result: AV{K: KTuple, T: []AV{Sym(name), NilV}}, Apply: func(s *State) {
 				m.annotate(s, e)
 				m.consumed(s, "consume")
@@ -266,9 +267,12 @@ func (m *ParseModel) Call(mc *Machine, st *State, call ssa.CallInstruction, call
 		return outs, true
 	case "peek":
 		e := m.ev(in, "peek", nil, "")
+		e.KV["res"] = "peek" + valName
 		return []Outcome{{Result: Sym("peek" + valName), Apply: func(s *State) { m.annotate(s, e); m.Emit(s, e) }}}, true
 	case "previous":
 		e := m.ev(in, "previous", nil, "")
+		e.KV["res"] = "prev(" + st.Mon["prev"] + ")" + valName
+		e.KV["how"] = st.Mon["prev"]
 		return []Outcome{{Result: Sym("prev(" + st.Mon["prev"] + ")" + valName), Apply: func(s *State) { m.annotate(s, e); m.Emit(s, e) }}}, true
 	case "advance":
 		e := m.ev(in, "advance", nil, "")
@@ -287,6 +291,7 @@ func (m *ParseModel) Call(mc *Machine, st *State, call ssa.CallInstruction, call
 		name := "n" + valName
 		strArgs := argStrings(args[1:])
 		eok := m.ev(in, "call", append([]string{callee.Name()}, strArgs...), "ok")
+		eok.KV["res"] = name
 		outs = append(outs, Outcome{Result: AV{K: KTuple, T: []AV{Sym(name), NilV}}, Apply: func(s *State) {
 			m.annotate(s, eok)
 			if s.Mon["cons"] != "P" {
@@ -368,6 +373,7 @@ func (m *ParseModel) Instr(mc *Machine, st *State, in ssa.Instruction, ops []AV)
 	case *ssa.Call:
 		if b, ok := x.Call.Value.(*ssa.Builtin); ok && b.Name() == "append" {
 			e := m.ev(in, "append", argStrings(ops), "")
+			e.KV["res"] = "append:" + st.Top().ID + ":" + x.Name()
 			if len(ops) == 2 {
 				if elems, ok := mc.SliceElems(st, ops[1]); ok && len(elems) == 1 {
 					e.Args = []string{ops[0].String(), elems[0].String()}
